@@ -138,3 +138,11 @@ def diff_kind(a, b):
     if ka == kb == 'b':
         return 'bytes%d->%d' % (min(len(a[1]), 99), min(len(b[1]), 99)) if len(a[1]) != len(b[1]) else 'bytes-content'
     return '%s->%s' % (ka, kb)
+
+
+def generic_path_leaf(d0, d1):
+    """Last field name of the first differing path, list indices removed (for signatures)."""
+    import re
+    p = first_diff(d0, d1) or '.'
+    p = re.sub(r'\[\d+\]', '', p)
+    return p.rsplit('.', 1)[-1].split('#')[0] or 'root'
